@@ -3,7 +3,7 @@
    for ANY sequence of delivered lines (any combination of altered, dropped, duplicated,
    inserted or truncated bytes yields SOME sequence of lines, or an unparsable one, which
    is [LOther]).  MD5 is the abstract function H; the two digest hypotheses are premises. *)
-From Trzsz Require Import Base.Bytes Model.Path Model.Fs Model.Names Model.Transfer Model.Protocol Model.FaultTie Proofs.Protocol Proofs.FaultTie.
+From Trzsz Require Import Base.Bytes Model.Path Model.Fs Model.Names Model.Transfer Model.Protocol Model.FaultTie Proofs.Protocol Proofs.FaultTie Proofs.FaultTieFs Proofs.FaultTieSender.
 From Trzsz Require Model.Resume Model.FaultResume.
 From Coq Require Import ZArith.
 
@@ -101,6 +101,14 @@ Theorem C02_transfer_receiver_sound : forall c dest f0 sch ms sv,
   (tr_pipeline c = false -> (fv_size digest sv <= tr_blen (fv_content digest sv))%N).
 Proof. exact (ft_saved_sound digest H deq deq_spec zdecomp unzl). Qed.
 
+(* ... and right after the answer the (abstract) file system holds exactly these bytes at the place of
+   the file: destination / local name / rest of the relative path *)
+Theorem C02_transfer_saved_on_fs : forall c dest f0 sch ms sv,
+  In sv (snd (ft_receive digest H deq zdecomp unzl c dest f0 sch ms)) ->
+  exists ln, ft_leaf digest c dest sv = Some (dest ++ ln :: tr_p_tail (fv_payload digest sv)) /\
+    lookup (st_fs (rs_st (fv_after digest sv))) (dest ++ ln :: tr_p_tail (fv_payload digest sv)) = Some (File (fv_content digest sv)).
+Proof. exact (ft_receive_saved_on_fs digest H deq zdecomp unzl). Qed.
+
 (* C02 for the whole transfer: whatever sequence of messages is delivered, every file the
    receiver reports as saved has digest = the delivered MD5 value and (protocol >= 2) the
    announced size; hence, under the two digest hypotheses, it equals the source *)
@@ -110,6 +118,17 @@ Theorem C02_transfer_no_silent : forall c dest f0 sch ms sv src,
   collision_free_on digest H src (fv_content digest sv) ->
   fv_content digest sv = src.
 Proof. exact (ft_no_silent digest H deq deq_spec zdecomp unzl). Qed.
+
+(* the whole-transfer SENDER under ANY delivered answer sequence: every file it counts as done (the
+   echo of its MD5 message accepted; [ft_send] records one [ft_done] per such file) is a file for
+   which the per-file decision model says TRUE on exactly the answers delivered for it - so
+   C02_sender_sound / C02_sender_final / C02_sender_sound_v1 describe what was delivered: every
+   frame acknowledged with its length in order, a final ack with step = size, the own digest echoed *)
+Variable zcomp : list (list byte) -> list (list byte).
+Variable zl : list byte -> list byte.
+Theorem C02_transfer_sender_bridge : forall c ess ms dn,
+  In dn (snd (ft_send digest H deq zcomp zl c ess ms)) -> ft_sverdict digest H deq c dn = true.
+Proof. exact (ft_send_bridge digest H deq zcomp zl). Qed.
 End C02.
 
 Print Assumptions C02_receiver_sound_v2.
@@ -123,7 +142,9 @@ Print Assumptions C02_transfer_ghost_transparent.
 Print Assumptions C02_transfer_answer_only_md5.
 Print Assumptions C02_transfer_bridge.
 Print Assumptions C02_transfer_receiver_sound.
+Print Assumptions C02_transfer_saved_on_fs.
 Print Assumptions C02_transfer_no_silent.
+Print Assumptions C02_transfer_sender_bridge.
 
 (* non-vacuity: with digest = the content itself, a clean two-frame exchange is accepted *)
 Example C02_nonvacuous :
@@ -221,3 +242,14 @@ Proof.
 Qed.
 Print Assumptions C02_resume_refuted.
 Print Assumptions C02_resume_full_refuted.
+
+(* the sender bridge is not vacuous: protocol 2, one file of 3 bytes sent as frames of 2 and 1 bytes *)
+Example C02_transfer_sender_nonvacuous :
+  let c := mkTrCfg 2 true false false 0 [] true in
+  let e := mkTrEntry 0 [[97]] false [[1; 2; 3]] in
+  let ess := [(e, mkTrSched [2]%nat 1 false [] [])] in
+  let ms := [TrSuccInt _ 1; TrSuccName _ [97]; TrSuccInt _ 3; TrSuccAck _ 2 0; TrKeepAlive _; TrSuccAck _ 1 3; TrSuccAck _ 0 3;
+             TrSuccInt _ 2; TrSuccInt _ 3; TrSuccDigest _ [1; 2; 3]] in
+  let r := ft_send (list byte) (fun x => x) list_eqb (fun x => x) (fun x => x) c ess ms in
+  (ss_phase (fst (fst r)), map (fun dn => (fd_sent _ dn, length (fd_msgs _ dn))) (snd r)) = (SpDone, [([2; 1; 0]%N, 7%nat)]).
+Proof. vm_compute. reflexivity. Qed.
